@@ -3,6 +3,7 @@
    OptionParser::run_subparser / run_inner / Info::eval (src/info.rs).
    Panics and fuel exhaustion are explicit outcomes. *)
 From BpafModel Require Export State Meta Values.
+From BpafModel Require Import Message.
 From BpafGen Require Export CanCatch.
 
 Inductive eres :=
@@ -584,7 +585,7 @@ Definition run_sub_body (inf : info) (m : meta) (s : state) (res : eres * state)
             if invariant_ok m then (SFail (FStdout (HHelp (path s2) inf m detailed)), s2)
             else (SPanic P_invariant, s2)
           | (Some (ExVersion v), s2) => (SFail (FStdout (HVersion v)), s2)
-          | (None, s2) => (SFail (FStderr err), s2)
+          | (None, s2) => (SFail (FStderr err (render_message err s2 m)), s2)
           end in
         match r with
         | ROk v =>
@@ -667,7 +668,7 @@ Definition outcome_of (r : sres) : outcome :=
   | SOk v => OutOk v
   | SFail (FStdout h) => OutStdout h
   | SFail (FCompletion c) => OutCompletion c
-  | SFail (FStderr m) => OutStderr m
+  | SFail (FStderr m _) => OutStderr m
   | SPanic w => OutPanic w
   | SFuel => OutFuel
   end.
@@ -685,7 +686,8 @@ Definition run_inner_state (feat : features) (env : bytes -> option bytes) (o : 
            (name : option bytes) (argv : list bytes) : sres * state :=
   let '(st, amb) := initial_state o name argv in
   match amb with
-  | Some (ix, short) => (SFail (FStderr (MsgAmbiguity ix short)), st)
+  | Some (ix, short) =>
+    (SFail (FStderr (MsgAmbiguity ix short) (render_message (MsgAmbiguity ix short) st (ometa_of o))), st)
   | None => run_sub env o st
   end.
 
